@@ -215,14 +215,15 @@ def fix_names(js, pool=POOL):
     return [ren(j) for j in js]
 
 
-def rename_binders(j, names):
-    """Alpha-variant: the i-th binder (pre-order) gets names[i % len(names)]."""
+def rename_binders(j, names, mask=None):
+    """Alpha-variant: the i-th binder (pre-order) gets names[i % len(names)] (only where mask[i % len(mask)] holds)."""
     counter = [0]
 
     def ren(j):
         if j[0] == 'abs':
-            nm = names[counter[0] % len(names)]
+            i = counter[0]
             counter[0] += 1
+            nm = names[i % len(names)] if (not mask or mask[i % len(mask)]) else j[1]
             return ["abs", nm, j[2], ren(j[3])]
         if j[0] == 'app':
             return ["app", ren(j[1]), ren(j[2])]
@@ -368,6 +369,97 @@ def do_print(kind, obj, unicode, highlight, line_length):
         else:
             raise ValueError(kind)
     return flatten(out)
+
+
+# ---------------------------------------------------------------------------------------------- pollution prefix
+def context_of(js):
+    """vars / svars dictionaries (name -> holpy Type) of the free variables of the JSON terms."""
+    vs, svs = {}, {}
+    for j in js:
+        for tag, nm, T in free_atoms(j):
+            (vs if tag == 'v' else svs)[nm] = codec.type_dec(T)
+    return vs, svs
+
+
+def run_prefix_ops(ops, main_th, t_obj, thys, check=None, note=None):
+    """Execute the history prefix of a term case (see props/c07_roundtrip.py for the op format).
+    thys: theory name -> kernel Theory object; check(theory, jterm) may raise CaseInvalid (op skipped);
+    note(label) records an event.  Errors of the code under test are ignored (only the final print is judged).
+    Returns the labels of the ops that ran.  Leaves kernel.theory.thy = thys[main_th]."""
+    import contextlib
+    import io
+    from kernel import theory
+    from kernel.term import Eq, Lambda
+    from kernel.thm import Thm
+    from kernel.type import BoolType
+    from logic import context
+    from syntax import parser
+    from vlib.harness import Timeout
+    ran = []
+    for op in ops or []:
+        if not isinstance(op, dict):
+            raise CaseInvalid('prefix op')
+        kind = op.get('op')
+        uni = bool(op.get('unicode', False))
+        hl = bool(op.get('highlight', False))
+        ll = op.get('line_length')
+        if not (ll is None or (isinstance(ll, int) and not isinstance(ll, bool) and 5 <= ll <= 200)):
+            raise CaseInvalid('prefix line_length')
+        try:
+            if kind == 'print':
+                th = op.get('theory', main_th)
+                if th not in thys:
+                    if note:
+                        note('prefix-op-theory-not-available-skipped')
+                    continue
+                if check is not None:
+                    try:
+                        check(th, op.get('t'))
+                    except CaseInvalid:
+                        if note:
+                            note('prefix-op-out-of-domain-skipped')
+                        continue
+                theory.thy = thys[th]
+                pt = codec.term_dec(op['t'])
+                text, lines = do_print('term', pt, uni, hl, ll)
+                vs, svs = context_of([op['t']])
+                with context.fresh_context(vars=vs, svars=svs), contextlib.redirect_stdout(io.StringIO()):
+                    parser.parse_term(text)
+                ran.append('print' + (':other-theory' if th != main_th else ''))
+            elif kind == 'share':
+                theory.thy = thys[main_th]
+                how = op.get('how')
+                if how == 'eq':
+                    do_print('term', Eq(t_obj, t_obj), uni, hl, ll)
+                elif how == 'sub':
+                    stack = [t_obj]
+                    while stack:
+                        s = stack.pop()
+                        if s.is_comb():
+                            stack.extend([s.arg, s.fun])
+                            if not s.arg.is_open():
+                                do_print('term', s.arg, uni, hl, ll)
+                elif how == 'lam':
+                    fv = t_obj.get_vars()
+                    if fv:
+                        do_print('term', Lambda(fv[0], t_obj), uni, hl, ll)
+                elif how == 'thm':
+                    if t_obj.get_type() == BoolType:
+                        do_print('thm', Thm(t_obj, t_obj), uni, hl, None)
+                else:
+                    raise CaseInvalid('share how')
+                ran.append('share:' + str(how))
+            else:
+                raise CaseInvalid('prefix op kind')
+        except CaseInvalid:
+            raise
+        except (Timeout, RecursionError):
+            raise
+        except Exception:
+            if note:
+                note('prefix-op-raised')
+    theory.thy = thys[main_th]
+    return ran
 
 
 # ---------------------------------------------------------------------------------------------- operator ladder
@@ -661,7 +753,7 @@ class Worker:
     START_DEADLINE = 600
     ASK_DEADLINE = 120
 
-    def __init__(self, theory):
+    def __init__(self, theory, extra=()):
         import subprocess
         from vlib import harness
         env = dict(os.environ)
@@ -671,7 +763,7 @@ class Worker:
         self.theory = theory
         self.proc = None
         try:
-            self.proc = subprocess.Popen([sys.executable, '-m', 'vlib.c07_lib', 'worker', theory], stdin=subprocess.PIPE,
+            self.proc = subprocess.Popen([sys.executable, '-m', 'vlib.c07_lib', 'worker', theory] + list(extra), stdin=subprocess.PIPE,
                                          stdout=subprocess.PIPE, stderr=subprocess.DEVNULL, env=env, cwd=harness.VERIF,
                                          text=True, bufsize=1)
             line = self._readline(self.START_DEADLINE)
@@ -739,15 +831,19 @@ class Worker:
                 pass
 
 
-def _worker_main(theory_name):
+def _worker_main(theory_name, extra=()):
     import signal
     from logic import basic
     from kernel import theory
     from syntax import parser, printer, pprint  # noqa
-    if theory_name == 'interval_arith':
+    names = [theory_name] + [e for e in extra if e != theory_name]
+    if any(n in ('interval_arith', 'real') for n in names):
         import data.real  # noqa  (a fresh process must import data.real before theories built on real)
-    basic.load_theory(theory_name)
-    thy = theory.thy
+    thys = {}
+    for n in reversed(names):       # the main theory last
+        basic.load_theory(n)
+        thys[n] = theory.thy
+    thy = thys[theory_name]
     # modules that the printer imports lazily on its first call (importing is not printing)
     from logic import logic  # noqa
     from data import nat, list, set, function, interval, string  # noqa
@@ -768,8 +864,9 @@ def _worker_main(theory_name):
                 signal.alarm(60)
                 theory.thy = thy
                 t = codec.term_dec(req['t'])
+                ran = run_prefix_ops(req.get('prefix'), theory_name, t, thys) if req.get('prefix') else []
                 text, lines = do_print('term', t, req.get('unicode'), req.get('highlight'), req.get('line_length'))
-                res = {'text': text}
+                res = {'text': text, 'ran': ran}
             except BaseException as e:  # noqa
                 res = {'err': '%s: %s' % (type(e).__name__, str(e)[:200])}
             try:
@@ -813,5 +910,5 @@ def _worker_main(theory_name):
 
 
 if __name__ == '__main__':
-    if len(sys.argv) == 3 and sys.argv[1] == 'worker':
-        _worker_main(sys.argv[2])
+    if len(sys.argv) >= 3 and sys.argv[1] == 'worker':
+        _worker_main(sys.argv[2], sys.argv[3:])
